@@ -111,6 +111,63 @@ func (cl *Cluster) HeartbeatAll() {
 	}
 }
 
+// Incarnation returns the leader incarnation with the given generation number.
+func (cl *Cluster) Incarnation(gen int) *curator.VerifCurator {
+	if cl.Cur.Gen == gen {
+		return cl.Cur
+	}
+	for _, c := range cl.Old {
+		if c.Gen == gen {
+			return c
+		}
+	}
+	return nil
+}
+
+// SetEligible makes exactly the given tractservers (among those the incarnation already knows)
+// report free space; the others report a full disk, so placement cannot pick them.  Placement in
+// BLB iterates Go maps and draws from math/rand; restricting the candidates to exactly the number
+// needed is how the harness keeps runs reproducible (load reports are environment inputs).
+func (cl *Cluster) SetEligible(inc *curator.VerifCurator, elig map[int]bool) {
+	for i := 1; i < len(cl.TS); i++ {
+		if !inc.KnowsTS(core.TractserverID(i)) {
+			continue
+		}
+		avail := uint64(0)
+		if elig == nil || elig[i] {
+			avail = 1 << 40
+		}
+		inc.HeartbeatLoad(core.TractserverID(i), TSAddr(i), avail)
+	}
+}
+
+// sortTractHosts orders the replicas of every tract by tractserver id (order is irrelevant to the
+// protocol; BLB's own order comes from map iteration).
+func sortTractHosts(tis []core.TractInfo) []core.TractInfo {
+	out := make([]core.TractInfo, len(tis))
+	for k, ti := range tis {
+		n := len(ti.TSIDs)
+		idx := make([]int, n)
+		for i := range idx {
+			idx[i] = i
+		}
+		sort.Slice(idx, func(a, b int) bool { return ti.TSIDs[idx[a]] < ti.TSIDs[idx[b]] })
+		c := ti
+		c.TSIDs = make([]core.TractserverID, n)
+		if len(ti.Hosts) == n {
+			c.Hosts = make([]string, n)
+		}
+		for i, j := range idx {
+			c.TSIDs[i] = ti.TSIDs[j]
+			if len(ti.Hosts) == n {
+				c.Hosts[i] = ti.Hosts[j]
+			}
+		}
+		out[k] = c
+	}
+	return out
+}
+
 // RestartTS crashes and restarts tractserver i; every call parked at it (callee not yet run) fails.
 func (cl *Cluster) RestartTS(i int) (failed []*RPC) {
 	for _, r := range cl.S.Parked() {
@@ -233,7 +290,7 @@ func (t *cliCurTalker) CreateBlob(ctx context.Context, addr string, md core.Blob
 func (t *cliCurTalker) ExtendBlob(ctx context.Context, addr string, blob core.BlobID, n int) ([]core.TractInfo, core.Error) {
 	r := t.rpc(KExtendBlob, blob)
 	r.Aux = []int64{int64(n)}
-	r.exec = t.cl.run(r, func() interface{} { ti, e := t.cl.Cur.ExtendBlob(blob, n); return tractsReply{ti, e} })
+	r.exec = t.cl.run(r, func() interface{} { ti, e := t.cl.Cur.ExtendBlob(blob, n); return tractsReply{sortTractHosts(ti), e} })
 	r.fail = func() interface{} { return tractsReply{nil, core.ErrRPC} }
 	v := t.cl.S.Call(r).(tractsReply)
 	return v.Tracts, v.Err
@@ -267,7 +324,7 @@ func (t *cliCurTalker) GetTracts(ctx context.Context, addr string, blob core.Blo
 	r.Aux = []int64{int64(start), int64(end)}
 	r.exec = t.cl.run(r, func() interface{} {
 		ti, e := t.cl.Cur.GetTracts(blob, start, end, forRead, forWrite)
-		return tractsReply{ti, e}
+		return tractsReply{sortTractHosts(ti), e}
 	})
 	r.fail = func() interface{} { return tractsReply{nil, core.ErrRPC} }
 	v := t.cl.S.Call(r).(tractsReply)
@@ -437,7 +494,9 @@ func (t *curTalker) SetVersion(addr string, tsid core.TractserverID, id core.Tra
 	return t.cl.S.Call(r).(core.Error)
 }
 
-func (t *curTalker) PullTract(addr string, tsid core.TractserverID, from []string, id core.TractID, version int) core.Error {
+func (t *curTalker) PullTract(addr string, tsid core.TractserverID, from0 []string, id core.TractID, version int) core.Error {
+	from := append([]string(nil), from0...)
+	sort.Slice(from, func(i, j int) bool { return TSIndex(from[i]) < TSIndex(from[j]) }) // canonical source order
 	r := t.rpc(KPullTract, addr, id)
 	r.Version = version
 	r.Aux = []int64{int64(tsid)}
